@@ -106,8 +106,43 @@ type Type struct {
 	Key    *Type   `json:"key,omitempty"`   // map
 	Len    int     `json:"len,omitempty"`   // array
 	Fields []Field `json:"fields,omitempty"`
+	// Decl names a hand-declared struct type (with methods) instead of a reflect.StructOf shape;
+	// Fields mirrors its declaration.
+	Decl string `json:"decl,omitempty"`
 
 	rt reflect.Type
+}
+
+// StringerVal / StringerPtr are declared struct types whose String methods print hidden state:
+// nothing the expression language does may consult them.
+type StringerVal struct {
+	User   string
+	secret string
+	Hidden string `bexpr:"-" alt:"-"`
+}
+
+func (s StringerVal) String() string { return s.User + ":" + s.secret + ":" + s.Hidden }
+
+type StringerPtr struct {
+	ID    int
+	token string
+}
+
+func (s *StringerPtr) String() string { return fmt.Sprint(s.ID, ":", s.token) }
+
+var declared = map[string]reflect.Type{
+	"StringerVal": reflect.TypeOf(StringerVal{}),
+	"StringerPtr": reflect.TypeOf(StringerPtr{}),
+}
+
+// DeclStringerVal / DeclStringerPtr describe the declared types.
+func DeclStringerVal() *Type {
+	return &Type{K: KStruct, Decl: "StringerVal", Fields: []Field{{Name: "User", T: Scalar(KString)}, {Name: "secret", T: Scalar(KString)},
+		{Name: "Hidden", Tag: `bexpr:"-" alt:"-"`, T: Scalar(KString)}}}
+}
+
+func DeclStringerPtr() *Type {
+	return &Type{K: KStruct, Decl: "StringerPtr", Fields: []Field{{Name: "ID", T: Scalar(KInt)}, {Name: "token", T: Scalar(KString)}}}
 }
 
 // Hand-declared named types.
@@ -197,6 +232,10 @@ func (t *Type) Reflect() reflect.Type {
 	case KChan:
 		rt = reflect.ChanOf(reflect.BothDir, reflect.TypeOf(0))
 	case KStruct:
+		if t.Decl != "" {
+			rt = declared[t.Decl]
+			break
+		}
 		fs := make([]reflect.StructField, len(t.Fields))
 		for i, f := range t.Fields {
 			fs[i] = reflect.StructField{Name: f.Name, Type: f.T.Reflect(), Tag: reflect.StructTag(f.Tag), Anonymous: f.Embedded}
@@ -249,7 +288,7 @@ func (t *Type) String() string {
 		return n + "map[" + t.Key.String() + "]" + t.Elem.String()
 	case KStruct:
 		var sb strings.Builder
-		sb.WriteString("struct{")
+		sb.WriteString(t.Decl + "struct{")
 		for i, f := range t.Fields {
 			if i > 0 {
 				sb.WriteString("; ")
